@@ -92,48 +92,80 @@ def run(program, rep, tier):
     c12.check_static_build(program, rep, 'C17.mirror')
     ok_m = False
     if init:
+        from dlint.model import FuncInfo
         sub = init[0].args.args[0].arg
-        for lp in ast.walk(init[0]):
-            if isinstance(lp, ast.For) and norm(lp.iter) == \
-                    'self.maps.items()' and isinstance(lp.target, ast.Tuple):
-                kv = [norm(x) for x in lp.target.elts]
-                if len(lp.body) == 1 and isinstance(lp.body[0], ast.Expr) \
-                        and norm(lp.body[0].value) == (
-                            f'object.__setattr__({sub}, {kv[0]}, '
-                            f'{kv[1]}.get_static_map())'):
-                    ok_m = True
+
+        class _One(_D):
+            def for_counts(self, st, node, itersym):
+                return [1]
+        fi = FuncInfo(g.module, None, '__init__', init[0])
+        w = Walker(program, _One(program))
+        exits = [e for e in w.run(fi, None) if e.kind != 'raise']
+        ok_m = bool(exits)
+        for ex in exits:
+            tr = ex.state.trace
+            items = [e for e in tr if e.kind == 'for-item'
+                     and e.sym.text == 'self.maps.items()']
+            sets = [e.sym.node for e in tr if e.kind == 'call' and isinstance(
+                e.sym.node, ast.Call) and norm(e.sym.node.func) in (
+                    'object.__setattr__', 'setattr')]
+            good = False
+            for it in items:
+                t = it.target.text
+                if any([norm(a) for a in cc.args] == [
+                        sub, f'{t}[0]', f'{t}[1].get_static_map()']
+                        for cc in sets):
+                    good = True
+            if not good:
+                ok_m = False
     rep.check(ok_m, 'C17.mirror', site, 'for key, value in self.maps.items()',
               'every sub-map is mirrored recursively under its own name',
               'sub-maps are not mirrored as value.get_static_map() under '
               'their own names', line=g.node.lineno)
-    # slots / __dict__ decision
-    body_src = g.node
-    uses = {'handles': False, 'maps': False}
-    slot_assign = None
-    for n in ast.walk(body_src):
-        if isinstance(n, ast.Assign) and isinstance(n.targets[0], ast.Name) \
-                and 'isidentifier' in norm(n.value):
-            slot_assign = n
-    dict_if = [n for n in ast.walk(body_src) if isinstance(n, ast.If)
-               and any('__dict__' in norm(x) for x in ast.walk(n))]
+    # slots / __dict__ decision: whatever decides whether '__dict__' is among
+    # the slots must look at the names of both the handles and the sub-maps
+    assigns = {}
+    for n in ast.walk(g.node):
+        if isinstance(n, ast.Assign) and isinstance(n.targets[0], ast.Name):
+            assigns.setdefault(n.targets[0].id, []).append(n.value)
+
+    def closure_text(expr, depth=4):
+        txt = norm(expr)
+        seen = set()
+        frontier = {x.id for x in ast.walk(expr) if isinstance(x, ast.Name)}
+        for _ in range(depth):
+            nxt = set()
+            for nm in frontier:
+                if nm in seen:
+                    continue
+                seen.add(nm)
+                for v in assigns.get(nm, []):
+                    txt += ' ' + norm(v)
+                    nxt |= {x.id for x in ast.walk(v)
+                            if isinstance(x, ast.Name)}
+            frontier = nxt
+        return txt
+    deciders = []
+    for n in ast.walk(g.node):
+        if isinstance(n, (ast.If, ast.IfExp)):
+            inner = (n.body + n.orelse) if isinstance(n, ast.If) else [
+                n.body, n.orelse]
+            if any(isinstance(x, ast.Constant) and x.value == '__dict__'
+                   for b in inner for x in ast.walk(b)):
+                deciders.append(n)
     ok_d = False
-    why = 'no `if ...: <add __dict__>` decision found'
-    if dict_if:
-        t = dict_if[0].test
-        txt = norm(t)
-        src = txt
-        if slot_assign is not None and slot_assign.targets[0].id in txt:
-            src += ' ' + norm(slot_assign.value)
-        both = 'self.handles' in src and 'self.maps' in src
-        ok_d = both
+    why = 'no decision about a __dict__ slot found'
+    if deciders:
+        src = closure_text(deciders[0].test)
+        ok_d = 'self.handles' in src and 'self.maps' in src
         why = ('the decision to give the snapshot a __dict__ does not look '
                'at the names of both the handles and the sub-maps: a level '
                'whose only non-identifier names are of the other kind makes '
                'get_static_map() raise AttributeError')
     rep.check(ok_d, 'C17.mirror', site,
-              dict_if[0].test if dict_if else '__dict__ decision',
+              deciders[0].test if deciders else '__dict__ decision',
               'non-identifier names of either kind get a __dict__', why,
-              line=dict_if[0].lineno if dict_if else g.node.lineno)
+              line=deciders[0].lineno if deciders else g.node.lineno)
     # fresh snapshot: nothing cached on the map, returns a new instance
     stores = [n for n in ast.walk(g.node) if isinstance(
         n, (ast.Assign, ast.AugAssign)) and any(
